@@ -142,6 +142,10 @@ Lemma end_of_block_mc c ts : end_of_block (rho c) (mc ts) = end_of_block c ts.
 Proof. destruct ts as [|[t c'] r]; [reflexivity|]. rewrite mc_cons. cbn [end_of_block]. rewrite rho_ltb. reflexivity. Qed.
 Lemma bar_inside_mc off ts : bar_inside (rho off) (mc ts) = bar_inside off ts.
 Proof. destruct ts as [|[t c'] r]; [reflexivity|]. rewrite mc_cons. destruct t; cbn [bar_inside]; auto. apply rho_leb. Qed.
+Lemma col_inside_mc off ts : col_inside (rho off) (mc ts) = col_inside off ts.
+Proof. destruct ts as [|[t c'] r]; [reflexivity|]. rewrite mc_cons. cbn [col_inside]. apply rho_leb. Qed.
+Lemma head_is_eol_mc ts : head_is_eol (mc ts) = head_is_eol ts.
+Proof. destruct ts as [|[t c'] r]; [reflexivity|]. rewrite mc_cons. destruct t; reflexivity. Qed.
 Lemma is_default_mr_mc ts : is_default_mr (mc ts) = is_default_mr ts.
 Proof. destruct ts as [|[t c] [|[t2 c2] r]]; try reflexivity. Qed.
 Lemma is_slit_rule_mc ts : is_slit_rule (mc ts) = is_slit_rule ts.
@@ -159,6 +163,8 @@ Definition R_all (n : nat) : Prop :=
   (forall off cur ts, p_binafter n (rho off) cur (mc ts) = rmap (p_binafter n off cur ts)) /\
   (forall off ts, p_term n (rho off) (mc ts) = rmap (p_term n off ts)) /\
   (forall off ts, p_if n (rho off) (mc ts) = rmap (p_if n off ts)) /\
+  (forall off cond ts, p_if1 n (rho off) cond (mc ts) = rmap (p_if1 n off cond ts)) /\
+  (forall off cond te ts, p_if_nl n (rho off) cond te (mc ts) = rmap (p_if_nl n off cond te ts)) /\
   (forall off ts, p_atoms n (rho off) (mc ts) = rmap (p_atoms n off ts)) /\
   (forall off ts, p_atom n (rho off) (mc ts) = rmap (p_atom n off ts)) /\
   (forall off ts, p_commas n (rho off) (mc ts) = rmap (p_commas n off ts)) /\
@@ -183,7 +189,7 @@ Lemma relabel_all : forall n, R_all n.
 Proof.
   induction n as [|n IH].
   - unfold R_all. repeat split; intros; reflexivity.
-  - destruct IH as (Hexpr & Hbin & Hterm & Hif & Hatoms & Hatom & Hcommas & Hrules & Hrule & Hurules & Hsrules & Hstmt & Hblock & Hstmts).
+  - destruct IH as (Hexpr & Hbin & Hterm & Hif & Hif1 & Hifnl & Hatoms & Hatom & Hcommas & Hrules & Hrule & Hurules & Hsrules & Hstmt & Hblock & Hstmts).
     unfold R_all. repeat split.
     + (* p_expr *) intros off ts. cbn [p_expr]. rewrite Hterm. sub_res. apply Hbin.
     + (* p_binafter *) intros off cur ts. cbn [p_binafter]. rewrite skip_eol_mc.
@@ -202,34 +208,24 @@ Proof.
         destruct t2; try reflexivity. rewrite skip_eol_mc, Hblock. sub_res.
     + (* p_if *) intros off ts. cbn [p_if]. rewrite Hexpr. sub_res.
       destruct l as [|[t1 c1] r2]; [reflexivity|]. rewrite mc_cons.
-      destruct t1; try reflexivity.
-      destruct r2 as [|[t2 c2] r3].
-      * use_nil (Hexpr off []). sub_res.
-        destruct l as [|[t3 c3] r4]; [reflexivity|]. rewrite mc_cons.
-        destruct t3; try reflexivity. rewrite Hexpr. sub_res.
-      * rewrite mc_cons.
-        assert (ONE : forall r2', r2' = (t2, c2) :: r3 ->
-          (let* (te, r5) := p_expr n (rho off) (mc r2') in
-           match r5 with
-           | (TELSE, _) :: r4 => let* (ee, r6) := p_expr n (rho off) r4 in Ok (EIf e (Blk [SExpr te]) (Some (Blk [SExpr ee])), r6)
-           | _ => Ok (EIf e (Blk [SExpr te]) None, r5)
-           end) =
-          rmap (let* (te, r5) := p_expr n off r2' in
-           match r5 with
-           | (TELSE, _) :: r4 => let* (ee, r6) := p_expr n off r4 in Ok (EIf e (Blk [SExpr te]) (Some (Blk [SExpr ee])), r6)
-           | _ => Ok (EIf e (Blk [SExpr te]) None, r5)
-           end)).
-        { intros r2' _. rewrite Hexpr. sub_res.
-          destruct l as [|[t3 c3] r4]; [reflexivity|]. rewrite mc_cons.
-          destruct t3; try reflexivity. rewrite Hexpr. sub_res. }
-        destruct t2; try (rewrite <- mc_cons; apply ONE; reflexivity).
-        (* TEOL: the multi-line form *)
-        rewrite <- mc_cons. rewrite skip_eol_mc, Hblock. sub_res.
-        rewrite skip_eol_mc.
-        destruct (skip_eol l) as [|[t3 c3] r4]; [reflexivity|]. rewrite mc_cons.
-        destruct t3; try reflexivity.
-        -- rewrite skip_eol_mc, Hblock. sub_res.
-        -- rewrite Hif. sub_res.
+      destruct t1; try reflexivity. rewrite head_is_eol_mc.
+      destruct (head_is_eol r2); [|apply Hif1].
+      rewrite skip_eol_mc, Hblock. sub_res. rewrite skip_eol_mc.
+      destruct (skip_eol l) as [|[t3 c3] r4]; [reflexivity|]. rewrite mc_cons.
+      destruct t3; try reflexivity.
+      * rewrite skip_eol_mc, Hblock. sub_res.
+      * rewrite Hif. sub_res.
+    + (* p_if1 *) intros off cond ts. cbn [p_if1]. rewrite Hexpr. sub_res.
+      destruct l as [|[t3 c3] r4]; [apply (Hifnl off cond e [])|]. rewrite mc_cons.
+      destruct t3; try (rewrite <- mc_cons; apply Hifnl).
+      * rewrite Hexpr. sub_res.
+      * rewrite Hif. sub_res.
+    + (* p_if_nl *) intros off cond te ts. cbn [p_if_nl]. rewrite head_is_eol_mc, skip_eol_mc, col_inside_mc.
+      destruct (head_is_eol ts && col_inside off (skip_eol ts)); [|reflexivity].
+      destruct (skip_eol ts) as [|[t3 c3] r4]; [reflexivity|]. rewrite mc_cons.
+      destruct t3; try reflexivity.
+      * rewrite skip_eol_mc, Hblock. sub_res.
+      * rewrite Hif. sub_res.
     + (* p_atoms *) intros off ts. cbn [p_atoms]. rewrite Hatom. sub_res.
       rewrite end_of_term_mc. destruct (end_of_term l); [reflexivity|]. rewrite Hatoms. sub_res.
     + (* p_atom *) intros off ts. cbn [p_atom].
@@ -303,7 +299,7 @@ Proof.
   destruct (skip_eol ts) as [|[t c] r]; [reflexivity|]. rewrite mc_cons.
   destruct t; try reflexivity.
   - (* TLET *) rewrite <- mc_cons. rewrite <- rho0 at 1.
-    destruct (relabel_all n) as (_ & _ & _ & _ & _ & _ & _ & _ & _ & _ & _ & Hstmt & _).
+    destruct (relabel_all n) as (_ & _ & _ & _ & _ & _ & _ & _ & _ & _ & _ & _ & _ & Hstmt & _).
     rewrite Hstmt. match goal with |- context [rmap ?x] => destruct x as [[s r1]| |] end; cbn [bind rmap]; try reflexivity.
     rewrite IH. reflexivity.
   - (* TTYPE *) rewrite span_until_mc. destruct (span_until is_eq r) as [hdr r1]. cbn [fst snd].
@@ -340,6 +336,6 @@ Theorem columns_only_compared_block : forall rho, strictly_monotone rho ->
     p_block n (rho off) (map_cols rho ts) =
     match p_block n off ts with Ok (b, r) => Ok (b, map_cols rho r) | Reject => Reject | Fuel => Fuel end.
 Proof.
-  intros rho M n off ts. destruct (relabel_all rho M n) as (_ & _ & _ & _ & _ & _ & _ & _ & _ & _ & _ & _ & Hb & _).
+  intros rho M n off ts. destruct (relabel_all rho M n) as (_ & _ & _ & _ & _ & _ & _ & _ & _ & _ & _ & _ & _ & _ & Hb & _).
   rewrite Hb. destruct (p_block n off ts) as [[b r]| |]; reflexivity.
 Qed.
